@@ -1379,6 +1379,72 @@ fn sub_cfi_boundaries(_tier: Tier) -> Sub {
     })
 }
 
+/// Register operands in a context where a wrongly converted register number changes the rows.
+fn sub_cfi_register_context(_tier: Tier) -> Sub {
+    let regs: [u64; 12] = [0, 1, 2, 62, 63, 64, 65, 127, 128, 129, 255, 256];
+    let kinds = 12u64;
+    Sub::new(
+        "cfi-register-operands-in-context",
+        regs.len() as u64 * kinds * 2 * 2,
+        "register r in {0,1,2,62,63,64,65,127,128,129,255,256} x instruction {restore (r<64) / restore_extended, undefined, same_value, offset (r<64) / offset_extended, offset_extended_sf, val_offset, val_offset_sf, register(r,3), register(3,r), expression, val_expression, def_cfa_register} x placed {in the FDE after a row that changed every context register, in the CIE after the context} x {.debug_frame v4, .eh_frame v1}; context = distinct offset rules in the CIE and distinct register rules in the FDE for {0, 1, r, r-1, r+1, r mod 64, r mod 128, r/2, 64}",
+        move |ctx, i| {
+            let mut x = Mix(i);
+            let r = *x.pick(&regs);
+            let k = x.take(kinds);
+            let in_cie = x.flag();
+            let eh = x.flag();
+            let cfg = Cfg { version: 4, fmt64: false, asz: 8, big: false };
+            let insn = match k {
+                0 if r < 64 => Cfa::Restore(r as u8),
+                0 => Cfa::RestoreExtended(r),
+                1 => Cfa::Undefined(r),
+                2 => Cfa::SameValue(r),
+                3 if r < 64 => Cfa::Offset(r as u8, 77),
+                3 => Cfa::OffsetExtended(r, 77),
+                4 => Cfa::OffsetExtendedSf(r, -79),
+                5 => Cfa::ValOffset(r, 80),
+                6 => Cfa::ValOffsetSf(r, -81),
+                7 => Cfa::Register(r, 3),
+                8 => Cfa::Register(3, r),
+                9 => Cfa::Expression(r, vec![Op::Breg(7, 8)]),
+                10 => Cfa::ValExpression(r, vec![Op::Breg(6, 16)]),
+                _ => Cfa::DefCfaRegister(r),
+            };
+            let mut cregs: Vec<u64> = vec![0, 1, r, r.wrapping_sub(1) & 0xffff, r + 1, r % 64, r % 128, r / 2, 64];
+            cregs.sort();
+            cregs.dedup();
+            let mut init = vec![Cfa::DefCfa(7, 8)];
+            for (n, &c) in cregs.iter().enumerate() {
+                init.push(Cfa::OffsetExtended(c, 10 + n as u64));
+            }
+            let mut insns = vec![];
+            if in_cie {
+                init.push(insn);
+                insns.push(Cfa::AdvanceLoc(1));
+                insns.push(Cfa::RestoreExtended(r));
+                insns.push(Cfa::AdvanceLoc(1));
+                insns.push(Cfa::Nop);
+            } else {
+                insns.push(Cfa::AdvanceLoc(1));
+                for (n, &c) in cregs.iter().enumerate() {
+                    insns.push(Cfa::Register(c, 200 + n as u64));
+                }
+                insns.push(Cfa::AdvanceLoc(1));
+                insns.push(insn);
+                insns.push(Cfa::AdvanceLoc(1));
+                insns.push(Cfa::Nop);
+            }
+            let m = FrameM { eh, cfg, cies: vec![CieM { version: if eh { 1 } else { 4 }, aug: Aug::none(), caf: 1, daf: -8, ra: 16, init: init.clone() }], fdes: vec![FdeM { cie: 0, addr: 0x1000, len: 0x100, lsda: None, insns: insns.clone() }] };
+            ctx.nontriv(1);
+            let case = || format!("{} {} CIE initial instructions {:?} FDE instructions {:?} section: {}", cfg.name(), if eh { ".eh_frame" } else { ".debug_frame" }, init, insns, mcx::hex(&build_frame(&m)));
+            if ctx.want_sample() {
+                ctx.sample(case());
+            }
+            check_frame(ctx, &m, "cfirc", "", &case);
+        },
+    )
+}
+
 const NFK: u64 = 14;
 
 fn sub_cfi_params(_tier: Tier) -> Sub {
@@ -1486,7 +1552,7 @@ fn sub_cfi_params(_tier: Tier) -> Sub {
 }
 
 pub fn subs(tier: Tier) -> Vec<Sub> {
-    let mut v = vec![sub_line(tier, false, false), sub_line(tier, true, false), sub_line_hdr(tier), sub_lists(tier), sub_expr(tier), sub_unit_kinds(tier), sub_cfi(tier, false, false), sub_cfi(tier, true, false), sub_cfi(tier, false, true), sub_cfi_params(tier), sub_cfi_advance(tier), sub_cfi_boundaries(tier), sub_expr_boundaries(tier), sub_expr_long_branches(tier), sub_line_regs(tier), sub_line_schedules(tier)];
+    let mut v = vec![sub_line(tier, false, false), sub_line(tier, true, false), sub_line_hdr(tier), sub_lists(tier), sub_expr(tier), sub_unit_kinds(tier), sub_cfi(tier, false, false), sub_cfi(tier, true, false), sub_cfi(tier, false, true), sub_cfi_params(tier), sub_cfi_advance(tier), sub_cfi_boundaries(tier), sub_cfi_register_context(tier), sub_expr_boundaries(tier), sub_expr_long_branches(tier), sub_line_regs(tier), sub_line_schedules(tier)];
     if tier == Tier::Thorough {
         v.push(sub_line(tier, false, true));
     }
